@@ -1102,3 +1102,174 @@ Proof.
     + intros. eapply step_shape_keyed; eauto.
     + now rewrite E0.
 Qed.
+
+(* ================================================================ secondary unique indexes *)
+(* no two different rows agree, without NULLs, on the columns of a unique index *)
+Definition uniq_ok (sch : schema) (t : tbl) : Prop :=
+  forall ix, In ix (s_uniq sch) ->
+  forall k1 r1 k2 r2, In (k1, r1) t -> In (k2, r2) t -> collides ix r1 r2 = true -> k1 = k2.
+
+Lemma collides_sym ix a b : collides ix a b = true -> collides ix b a = true.
+Proof.
+  unfold collides. intro H. apply andb_true_iff in H. destruct H as [N E].
+  apply key_eqb_eq in E. rewrite <- E, N. cbn. apply key_eqb_refl.
+Qed.
+
+Lemma sec_conflicts_nil ixs vals : forall skip t,
+  sec_conflicts ixs vals skip t = [] ->
+  forall ix kr, In ix ixs -> In kr t -> existsb (key_eqb (fst kr)) skip = false ->
+                collides ix vals (snd kr) = false.
+Proof.
+  induction ixs as [|ix0 ixs IH]; cbn; intros skip t H ix kr I; [destruct I|].
+  apply app_eq_nil in H. destruct H as [H1 H2]. rewrite H1 in H2. cbn in H2. rewrite app_nil_r in H2.
+  intros It S. destruct I as [<-|I]; [|eapply IH; eauto].
+  destruct (collides ix0 vals (snd kr)) eqn:C; auto.
+  assert (In kr []); [|contradiction]. rewrite <- H1. apply filter_In. split; auto. now rewrite S, C.
+Qed.
+
+Lemma sec_conflicts_complete ixs vals : forall skip t ix kr,
+  In ix ixs -> In kr t -> collides ix vals (snd kr) = true ->
+  existsb (key_eqb (fst kr)) skip = true \/ In (fst kr) (keys (sec_conflicts ixs vals skip t)).
+Proof.
+  induction ixs as [|ix0 ixs IH]; cbn; intros skip t ix kr I It C; [destruct I|].
+  unfold keys. rewrite map_app.
+  destruct (existsb (key_eqb (fst kr)) skip) eqn:S; auto. right. apply in_or_app.
+  destruct I as [<-|I].
+  - left. apply in_map. apply filter_In. split; auto. now rewrite S, C.
+  - destruct (IH (skip ++ map fst (filter (fun kr0 => negb (existsb (key_eqb (fst kr0)) skip) && collides ix0 vals (snd kr0)) t))
+                 t ix kr I It C) as [E|E]; auto.
+    rewrite existsb_app, S in E. cbn in E. left.
+    apply existsb_exists in E. destruct E as [k1 [I1 E1]]. apply key_eqb_eq in E1. now subst.
+Qed.
+
+(* a write step puts a row that collides with none of the rows that stay *)
+Definition clean_step (sch : schema) (t t' : tbl) : Prop :=
+  t' = t \/ exists (f : key * row -> bool) k' v,
+              t' = put k' v (filter f t) /\
+              forall ix kr, In ix (s_uniq sch) -> In kr (filter f t) -> collides ix v (snd kr) = false.
+
+Lemma clean_step_uniq sch t t' : clean_step sch t t' -> uniq_ok sch t -> uniq_ok sch t'.
+Proof.
+  intros [->|[f [k' [v [-> Cl]]]]] U; auto.
+  intros ix Iix k1 r1 k2 r2 I1 I2 C. unfold put in I1, I2.
+  apply (Permutation_in _ (ins_sorted_perm _ _)) in I1, I2.
+  destruct I1 as [E1|I1], I2 as [E2|I2].
+  - congruence.
+  - inversion E1; subst. pose proof (Cl ix (k2, r2) Iix I2) as X. cbn in X. congruence.
+  - inversion E2; subst. apply collides_sym in C. pose proof (Cl ix (k1, r1) Iix I1) as X. cbn in X. congruence.
+  - apply filter_In in I1, I2. eapply U; eauto; tauto.
+Qed.
+
+Lemma In_lookup_some k r t : In (k, r) t -> lookup k t <> None.
+Proof. intros I L. apply lookup_None in L. apply L. apply in_map_iff. exists (k, r). auto. Qed.
+
+Lemma update_row_clean bl sch en sets inc s kr s' :
+  update_row bl sch en sets inc s kr = WOk s' -> clean_step sch (w_t s) (w_t s').
+Proof.
+  destruct kr as [k old]. intro H. apply update_row_ok in H.
+  destruct H as [->|[vals [_ [_ [_ [L [SC ->]]]]]]]; [now left|]. cbn. right.
+  rewrite remove_as_filter in *. do 3 eexists. split; [reflexivity|].
+  intros ix [k2 r2] Iix I2. apply (sec_conflicts_nil _ _ _ _ SC ix (k2, r2) Iix).
+  - apply filter_In in I2. tauto.
+  - cbn. rewrite orb_false_r. apply orb_false_iff. split.
+    + apply filter_In in I2. destruct I2 as [_ N]. cbn in N. rewrite key_eqb_sym. now destruct (key_eqb k k2).
+    + apply key_eqb_false. intro; subst. now apply In_lookup_some in I2.
+Qed.
+
+Lemma insert_row_clean bl sch en mode idx ondup s es s' :
+  insert_row bl sch en mode idx ondup s es = WOk s' -> clean_step sch (w_t s) (w_t s').
+Proof.
+  unfold insert_row.
+  destruct (do g <- given_values en (s_cols sch) idx es (map (fun _ => None) (s_cols sch));
+            fill_defaults (s_cols sch) g) as [vals0|]; [|discriminate].
+  destruct (gen_auto (s_cols sch) vals0 (w_auto s) (w_last s)) as [[vals1 auto1] last1].
+  destruct (store_all (s_cols sch) vals1 auto1) as [auto2 [vals|]]; [|discriminate].
+  destruct (existsb bl (row_locks sch vals)); [discriminate|].
+  fold (in_the_way sch vals (w_t s)).
+  destruct (in_the_way sch vals (w_t s)) as [|[ko old] more] eqn:W.
+  - intro H; inversion H; cbn. right. exists (fun _ => true), (key_of sch vals), vals.
+    rewrite filter_true. split; auto. intros ix [k2 r2] Iix I2.
+    unfold in_the_way in W. apply app_eq_nil in W. destruct W as [W1 W2].
+    apply (sec_conflicts_nil _ _ _ _ W2 ix (k2, r2) Iix I2). cbn. rewrite orb_false_r.
+    apply key_eqb_false. intro; subst. apply In_lookup_some in I2.
+    destruct (lookup (key_of sch vals) (w_t s)); [discriminate|congruence].
+  - destruct ondup as [|x ondup].
+    + destruct mode; try discriminate.
+      * intro H; inversion H; now left.
+      * destruct (existsb bl (keys ((ko, old) :: more))); [discriminate|].
+        intro H; inversion H; cbn. right. do 3 eexists. split; [reflexivity|].
+        intros ix [k2 r2] Iix I2. apply filter_In in I2. destruct I2 as [It N].
+        change (fst (k2, r2)) with k2 in N. cbn [snd].
+        destruct (collides ix vals r2) eqn:C; auto. exfalso.
+        destruct (sec_conflicts_complete (s_uniq sch) vals [key_of sch vals] (w_t s) ix (k2, r2) Iix It C)
+          as [E|E]; cbn in E.
+        -- rewrite orb_false_r in E. apply key_eqb_eq in E. subst k2.
+           assert (X : existsb (key_eqb (key_of sch vals)) (ko :: keys more) = true);
+             [|rewrite X in N; discriminate].
+           change (ko :: keys more) with (keys ((ko, old) :: more)). rewrite <- W. unfold in_the_way. apply In_lookup_some in It.
+           destruct (lookup (key_of sch vals) (w_t s)); [|congruence]. cbn. now rewrite key_eqb_refl.
+        -- assert (X : existsb (key_eqb k2) (ko :: keys more) = true);
+             [|rewrite X in N; discriminate].
+           change (ko :: keys more) with (keys ((ko, old) :: more)). rewrite <- W. unfold in_the_way, keys. rewrite map_app, existsb_app.
+           apply orb_true_iff. right. apply existsb_exists. exists k2. split; auto. apply key_eqb_refl.
+    + destruct (bl ko); [discriminate|]. intro H. apply update_row_clean in H. exact H.
+Qed.
+
+(* every secondary unique index stays unique under exec (any statement, any
+   outcome, whatever other transactions have locked) *)
+Theorem exec_preserves_unique_indexes bl sch st s args :
+  uniq_ok sch (ts_rows st) -> uniq_ok sch (ts_rows (r_state (exec_l bl sch st s args))).
+Proof.
+  intro U.
+  assert (G : forall A (f : wstate -> A -> wres) l s0 s1,
+             (forall s x s', f s x = WOk s' -> clean_step sch (w_t s) (w_t s')) ->
+             uniq_ok sch (w_t s0) -> wfold f l s0 = WOk s1 -> uniq_ok sch (w_t s1)).
+  { intros A f l s0 s1 Hf U0 W.
+    apply (wfold_inv (fun s => uniq_ok sch (w_t s)) f l) with (s := s0); auto.
+    intros. eapply clean_step_uniq; eauto. }
+  destruct s as [f w o lim fu|mode names rows ondup|sets w o lim|w o lim]; cbn.
+  - now destruct (exec_select_l bl sch (ts_rows st) f w o lim fu args).
+  - unfold exec_insert.
+    destruct (match names with Some ns => resolve_cols (s_cols sch) ns [] | None => Ok _ end) as [idx|]; auto.
+    destruct (negb (arity_ok _ _ rows)); auto.
+    destruct (negb _); auto.
+    match goal with |- context [wfold ?f ?l ?s0] => destruct (wfold f l s0) as [s1|] eqn:W end; cbn; auto.
+    refine (G _ _ _ _ _ _ _ W); [intros; eapply insert_row_clean; eauto|exact U].
+  - unfold exec_update. destruct (negb _); auto.
+    destruct (select_rows _ w o lim (ts_rows st)) as [sel|]; auto.
+    destruct (existsb bl (keys sel)); auto.
+    match goal with |- context [wfold ?f ?l ?s0] => destruct (wfold f l s0) as [s1|] eqn:W end; cbn; auto.
+    refine (G _ _ _ _ _ _ _ W); [intros s2 [k0 o0] s3 H; eapply update_row_clean; eauto|exact U].
+  - unfold exec_delete. destruct (negb _); auto.
+    destruct (select_rows _ w o lim (ts_rows st)) as [sel|]; cbn; auto.
+    destruct (existsb bl (keys sel)); cbn; auto.
+    intros ix Iix k1 r1 k2 r2 I1 I2. apply filter_In in I1, I2. eapply U; eauto; tauto.
+Qed.
+
+Module UniqueExamples.
+Import Coq.Strings.Byte Examples.
+(* the table of Examples with UNIQUE KEY (name) *)
+Definition schu : schema := {| s_cols := s_cols sch; s_pk := s_pk sch; s_uniq := [[1%nat]] |}.
+
+(* INSERT (id, name, age) VALUES (9, 'a', 1) collides with row 1 on the unique name:
+   plain => 1062 and nothing changes; ON DUPLICATE KEY UPDATE age = age + 10 updates ROW 1
+   (affected 2) and takes its row lock; a NULL name never collides *)
+Definition ins od := SInsert InsPlain (Some [c_id; c_name_; c_age])
+                             [[ELit (VInt 9); ELit (VStr [x61]); ELit (VInt 1)]] od.
+Example unique_index_nonvacuous :
+  uniq_ok schu (ts_rows st0) /\
+  r_out (exec schu st0 (ins []) []) = Fail (EErr E_DUP) /\
+  r_out (exec schu st0 (ins [(c_age, EArith APlus (ECol c_age) (ELit (VInt 10)))]) []) = OkMod 2 0 /\
+  lookup [VInt 1] (ts_rows (r_state (exec schu st0 (ins [(c_age, EArith APlus (ECol c_age) (ELit (VInt 10)))]) [])))
+    = Some [VInt 1; VStr [x61]; VInt 15] /\
+  r_locks (exec schu st0 (ins [(c_age, EArith APlus (ECol c_age) (ELit (VInt 10)))]) [])
+    = [[VInt 9]; [VNull; VInt 0; VStr [x61]]; [VInt 1]; [VInt 1]; [VNull; VInt 0; VStr [x61]]] /\
+  r_out (exec schu st0 (SInsert InsPlain (Some [c_id; c_name_]) [[ELit (VInt 9); ELit VNull]] []) []) = OkMod 1 0.
+Proof.
+  split.
+  - intros ix [<-|[]] k1 r1 k2 r2 I1 I2 C. cbn in I1, I2.
+    destruct I1 as [E1|[E1|[E1|[]]]], I2 as [E2|[E2|[E2|[]]]]; inversion E1; inversion E2; subst;
+      auto; vm_compute in C; discriminate.
+  - repeat split; vm_compute; reflexivity.
+Qed.
+End UniqueExamples.
